@@ -1226,6 +1226,63 @@ def B7(F, rep):
                '%s changes a container buffer and its size field inconsistently: %s' % (short(fn['name']), seq), nontrivial=True)
 
 
+# ---------------------------------------------------------------------- E4 sticky failure, P5 position before publication
+def E4(F, rep):
+    """a short read stays visible until the caller checks it: no stream operation a decoder performs resets the failure state
+    (std::istream semantics: failbit is sticky)"""
+    cls = 'Vector::BLF::UncompressedFile'
+    n = 0
+    for fn in methods_of(F, cls):
+        if fn.get('kind') in ('ctor', 'dtor'):
+            continue
+        for a in walk(fn['body'], into_lambda=False):
+            if a.get('k') == 'Bin' and a.get('op') in ('=', '&=', '|=') and mname(a['lhs']) == 'm_rdstate':
+                n += 1
+                rep.count('E4')
+                refs = {x.get('name') for x in walk(a['rhs']) if x.get('k') == 'Ref'}
+                ok = 'failbit' in refs or 'badbit' in refs
+                rep.ob('E4', '%s|m_rdstate' % short(fn['name']) + ('' if ok else '|clears'), ok, rep.fn_site(fn, a['l']),
+                       '%s sets the failure state (%s)' % (short(fn['name']), '|'.join(sorted(r for r in refs if r.endswith('bit')))) if ok else
+                       '%s resets the stream state to %s: a later (even zero-length) read erases the failure of an earlier short read, and a '
+                       'truncated object passes the good() check after decoding' % (short(fn['name']), '|'.join(sorted(r for r in refs if r.endswith('bit'))) or 'a non-failure value'),
+                       nontrivial=True)
+    if n == 0:
+        raise AnalysisBroken('E4: UncompressedFile never sets m_rdstate')
+
+
+def P5(F, rep, FL):
+    """every container published into the stream's list has its filePosition assigned on the publishing path (the default 0 is only
+    right for the very first container: after consumed containers were dropped, chaining from 0 appends useless containers)"""
+    cls = 'Vector::BLF::UncompressedFile'
+    found = 0
+    for fn in methods_of(F, cls):
+        pushes = [n for n in walk(fn['body'], into_lambda=False) if n.get('k') == 'Call' and n.get('fn') in ('push_back', 'emplace_back') and
+                  (member_path(n.get('obj')) or (None,))[-1] == 'm_data']
+        if not pushes:
+            continue
+        found += 1
+        rep.count('P5')
+        bad = None
+        npaths = 0
+        for evs, out in FL.paths(fn, follow=(), unroll=1):
+            pi = [i for i, e in enumerate(evs) if e['ev'] == 'call' and e['n'] is pushes[0]]
+            if not pi:
+                continue
+            npaths += 1
+            # an assignment to <container>->filePosition anywhere on the path (before or right after the push, as write(container) does)
+            asg = [e for e in evs if e['ev'] == 'assign' and ((e['n'].get('k') == 'Bin' and mname(e['n']['lhs']) == 'filePosition') or
+                                                              (e['n'].get('k') == 'Call' and e['n'].get('args') and mname(e['n']['args'][0]) == 'filePosition'))]
+            if not asg:
+                bad = evs
+                break
+        rep.ob('P5', '%s|filePosition' % (short(fn['name']) + ('/container' if 'shared_ptr' in fn['sig'] else '')), bad is None and npaths > 0, rep.fn_site(fn, pushes[0]['l']),
+               '%s: every published container gets its filePosition assigned (%d publishing paths)' % (short(fn['name']), npaths) if bad is None else
+               '%s: a container is published with the default filePosition 0 on the path %s - after dropOldData() emptied the list the stream '
+               'appends one useless container per container size' % (short(fn['name']), fmt_events(bad, limit=12)), nontrivial=True)
+    if found < 2:
+        raise AnalysisBroken('P5: expected two publishing functions in UncompressedFile, found %d' % found)
+
+
 # ---------------------------------------------------------------------- P4: consumed data only
 def P4(F, rep, FL):
     """dropOldData removes the front container only when it lies wholly behind the get position (and put position / end)"""
@@ -1297,7 +1354,10 @@ def Z1(F, rep):
     vec = [v for v in decls if (v.get('rec') or '').startswith('std::vector')]
     ok = False
     why = 'no local std::vector buffer'
-    if vec:
+    if vec and vec[0].get('static'):
+        ok = False
+        why = 'keeps its zero buffer in a function-local static: every stream and thread shares it unsynchronised, a concurrent resize frees the bytes another thread is writing from'
+    elif vec:
         v = vec[0]
         rs = [n for n in walk(fn['body']) if n.get('k') == 'Call' and n.get('fn') == 'resize' and local_id(n.get('obj')) == v['id']]
         wr = [n for n in walk(fn['body']) if n.get('k') == 'Call' and n.get('fn') == 'write']
@@ -1309,6 +1369,25 @@ def Z1(F, rep):
         ok = src_ok and len_ok and not other
         why = 'writes s bytes from a std::vector<char> value-initialised by resize(s) (source=%s, lengths=%s, other writes=%d)' % (src_ok, len_ok, len(other))
     rep.ob('Z1', 'skipp|zero', ok, rep.fn_site(fn), 'AbstractFile::skipp ' + why, nontrivial=True)
+
+
+def G1(F, rep):
+    """no mutable function-local static in library code: such state is shared by all threads and all File instances without
+    synchronisation (and makes output depend on earlier activity in the process)"""
+    rep.count('G1')
+    bad = []
+    nfn = 0
+    for name, fns in F.functions.items():
+        for fn in fns:
+            nfn += 1
+            for n in walk(fn['body']):
+                if n.get('k') == 'Decl':
+                    for v in n['vars']:
+                        if v.get('static') and not v.get('constType'):
+                            bad.append('%s in %s (%s:%s)' % (v['name'], short(fn['name']), F.rel(fn['file']), n.get('l')))
+    rep.ob('G1', 'static-locals', not bad, None,
+           'no mutable function-local static variable in %d library functions' % nfn if not bad else
+           'mutable function-local static state: ' + '; '.join(bad[:4]), nontrivial=True)
 
 
 def K9(F, rep, R, FL):
